@@ -60,12 +60,12 @@ struct Scenario {
 }
 
 const SCENARIOS: &[Scenario] = &[
-    Scenario { name: "lastdrop_vs_open", pre: true, progs: [&["dropx"], &["open", "drop"]], needs_ooc: false },
-    Scenario { name: "create_vs_open", pre: false, progs: [&["create", "drop"], &["open", "drop"]], needs_ooc: false },
-    Scenario { name: "create_vs_create", pre: false, progs: [&["create", "drop"], &["create", "drop"]], needs_ooc: false },
-    Scenario { name: "lastdrop_vs_create", pre: true, progs: [&["dropx"], &["create", "drop"]], needs_ooc: false },
-    Scenario { name: "ooc_vs_ooc", pre: false, progs: [&["ooc", "drop"], &["ooc", "drop"]], needs_ooc: true },
-    Scenario { name: "lastdrop_vs_ooc", pre: true, progs: [&["dropx"], &["ooc", "drop"]], needs_ooc: true },
+    Scenario { name: "lastdrop_vs_open", pre: true, progs: [&["dropx"], &["open", "exist", "drop"]], needs_ooc: false },
+    Scenario { name: "create_vs_open", pre: false, progs: [&["create", "exist", "drop"], &["open", "exist", "drop"]], needs_ooc: false },
+    Scenario { name: "create_vs_create", pre: false, progs: [&["create", "exist", "drop"], &["create", "exist", "drop"]], needs_ooc: false },
+    Scenario { name: "lastdrop_vs_create", pre: true, progs: [&["dropx"], &["create", "exist", "drop"]], needs_ooc: false },
+    Scenario { name: "ooc_vs_ooc", pre: false, progs: [&["ooc", "exist", "drop"], &["ooc", "exist", "drop"]], needs_ooc: true },
+    Scenario { name: "lastdrop_vs_ooc", pre: true, progs: [&["dropx"], &["ooc", "exist", "drop"]], needs_ooc: true },
 ];
 
 pub fn run<P: Pat>(args: &Args) -> Value {
@@ -138,6 +138,7 @@ pub fn run<P: Pat>(args: &Args) -> Value {
                                         "create" => Op::Create { c: 2, slot: 0 },
                                         "open" => Op::Open { c: plain, slot: 0 },
                                         "ooc" => Op::Ooc { c: 1, slot: 0 },
+                                        "exist" => Op::Exist,
                                         "drop" => {
                                             if a.0.slots[0].is_none() {
                                                 continue;
